@@ -237,3 +237,73 @@ func (r *report) compiledStateWrites() {
 	r.violations = append(r.violations, name)
 	r.structFail = true
 }
+
+// ambientAuthority: structural obligation for C19 - the library reaches the operating system only
+// through capabilities the caller hands over. No function of package gojq outside module_loader.go (the
+// implementation behind WithModuleLoader, which exists only when the caller constructs it) calls into
+// os, os/exec, os/user, io/ioutil, net, net/http, syscall or plugin, reads time.Local implicitly aside,
+// and none mentions os.Args / os.Stdin / os.Stdout / os.Stderr. (time.Now and time zone lookups are the
+// documented exceptions of the property and are not flagged; debug.go is behind a build tag.)
+func (r *report) ambientAuthority() {
+	forbidden := map[string]bool{"os": true, "os/exec": true, "os/user": true, "os/signal": true, "io/ioutil": true, "net": true, "net/http": true, "syscall": true, "plugin": true, "io/fs": true}
+	var keys []string
+	for k := range r.eng.funcs {
+		keys = append(keys, k)
+	}
+	sort.Strings(keys)
+	var bad []string
+	nfn := 0
+	for _, k := range keys {
+		fn := r.eng.funcs[k]
+		pk := r.eng.fnPkg(fn)
+		if pk == nil || pk.Pkg.Path() != gojqPath || len(fn.Blocks) == 0 {
+			continue
+		}
+		if f := r.eng.relFile(fn); f == "module_loader.go" || f == "debug.go" {
+			continue
+		}
+		if fn.Synthetic != "" && fn.Name() == "init" {
+			continue // the package initialiser only runs the initialisers of the imported packages
+		}
+		nfn++
+		for _, b := range fn.Blocks {
+			for _, in := range b.Instrs {
+				var ops [16]*ssa.Value
+				for _, op := range in.Operands(ops[:0]) {
+					if op == nil || *op == nil {
+						continue
+					}
+					switch v := (*op).(type) {
+					case *ssa.Function:
+						if v.Pkg != nil && forbidden[v.Pkg.Pkg.Path()] {
+							bad = append(bad, fmt.Sprintf("%s uses %s.%s at %s", k, v.Pkg.Pkg.Path(), v.Name(), r.eng.fset.Position(in.Pos())))
+						}
+					case *ssa.Global:
+						if v.Pkg != nil && forbidden[v.Pkg.Pkg.Path()] {
+							bad = append(bad, fmt.Sprintf("%s uses the variable %s.%s at %s", k, v.Pkg.Pkg.Path(), v.Name(), r.eng.fset.Position(in.Pos())))
+						}
+					}
+				}
+			}
+		}
+	}
+	r.extraObl++
+	name := "gojq/structural/no-ambient-authority"
+	detail := fmt.Sprintf("no function of package gojq outside module_loader.go (the loader the caller must construct and pass with WithModuleLoader) refers to a function or variable of os, os/exec, os/user, os/signal, io/ioutil, io/fs, net, net/http, syscall or plugin (%d functions scanned; time.Now and time zones are the property's documented exceptions)", nfn)
+	if len(bad) == 0 {
+		r.extraOK++
+		r.extraSamples = append(r.extraSamples, map[string]any{"obligation": name, "kind": "structural (all functions, no solver)", "clause": detail, "status": "discharged"})
+		return
+	}
+	dir := filepath.Join(r.verif, "replays", r.id)
+	os.MkdirAll(dir, 0o755)
+	path := filepath.Join(dir, "no-ambient-authority.txt")
+	txt := fmt.Sprintf("property: %s\nobligation: %s\n%s\nfailed:\n", r.id, name, detail)
+	for _, b := range bad {
+		txt += "  " + b + "\n"
+	}
+	os.WriteFile(path, []byte(txt+"no counterexample: structural obligation\n"), 0o644)
+	fmt.Printf("VIOLATION property=%s replay=%s obligation=%s status=structural no-failing-input-found\n", r.id, path, name)
+	r.violations = append(r.violations, name)
+	r.structFail = true
+}
